@@ -991,7 +991,7 @@ class RotateRight(Logic):
             
         last = a
         for i in range(wb):
-            shifted = self.wire('shifted{}'.format(i), r.getWidth())
+            shifted = self.wire('shifted{}'.format(i), a.getWidth())
             RotateRightConstant(self, 'shifted{}'.format(i), last, 1<<i, shifted)
             
             doShift = self.wire(f'doShift{i}')
@@ -1038,7 +1038,7 @@ class RotateLeft(Logic):
             
         last = a
         for i in range(wb):
-            shifted = self.wire('shifted{}'.format(i), r.getWidth())
+            shifted = self.wire('shifted{}'.format(i), a.getWidth())
             RotateLeftConstant(self, 'shifted{}'.format(i), last, 1<<i, shifted)
             
             doShift = self.wire(f'doShift{i}')
